@@ -27,6 +27,11 @@ TEXTS = [
     ('blank-lines', 'a\n\n\nb'),
     ('long', LONG),
     ('misaligned', '\u0a41\u4100\n'),
+    # the same with CRLF line endings (first "newline" byte pattern found in
+    # UTF-16 / UTF-32 bytes is not a line ending at all), with and without a
+    # final line ending
+    ('misaligned-crlf', '\u0a85\u0100\r\nb\r\n'),
+    ('misaligned-crlf-nonl', '\u0a85\u3000 x\r\nb'),
 ]
 TEXT_BY_NAME = dict(TEXTS)
 
